@@ -343,6 +343,53 @@ EmitMove:
             }
           }
           else {
+            // The destination is occupied by a variable that waits for another register. If nothing could be done
+            // in the previous iteration then the registers form a cycle of three or more, which has to be broken.
+            if (work_flags & kWorkPostponed) {
+              if (arch_traits.has_inst_reg_swap(cur_group)) {
+                // Swap - this variable gets to its destination (it will be finished by the next iteration, which
+                // also handles a possible sign or zero extension) and the other one continues from `cur_id`.
+                RegType highest_type = Support::max(cur.reg_type(), alt_var.cur.reg_type());
+                if (Support::is_between(highest_type, RegType::kGp8Lo, RegType::kGp16)) {
+                  highest_type = RegType::kGp32;
+                }
+
+                OperandSignature signature = RegUtils::signature_of(highest_type);
+                ASMJIT_PROPAGATE(emit_reg_swap(Reg(signature, out_id), Reg(signature, cur_id)));
+
+                wd.swap(var_id, cur_id, alt_id, out_id);
+                cur.set_reg_id(out_id);
+                alt_var.cur.set_reg_id(cur_id);
+                work_flags = (work_flags & ~uint32_t(kWorkPostponed)) | kWorkDidSome;
+              }
+              else {
+                // Move this variable to a scratch register, but only if that makes its register available to
+                // a variable that waits for it, which guarantees progress.
+                RegMask available_regs = wd.available_regs();
+                bool is_awaited = false;
+
+                for (uint32_t other_id = 0; other_id < var_count; other_id++) {
+                  const Var& other = ctx._vars[other_id];
+                  if (!other.is_done() && other.cur.is_reg() && other.out.is_reg() &&
+                      RegUtils::group_of(other.cur.reg_type()) == cur_group &&
+                      RegUtils::group_of(other.out.reg_type()) == cur_group &&
+                      other.out.reg_id() == cur_id) {
+                    is_awaited = true;
+                    break;
+                  }
+                }
+
+                if (is_awaited && available_regs) {
+                  RegMask in_out_regs = wd.dst_regs();
+                  if (available_regs & ~in_out_regs) {
+                    available_regs &= ~in_out_regs;
+                  }
+                  out_id = Support::ctz(available_regs);
+                  work_flags &= ~uint32_t(kWorkPostponed);
+                  goto EmitMove;
+                }
+              }
+            }
             work_flags |= kWorkPending;
           }
         }
